@@ -422,3 +422,33 @@ def run(rep, facts, tier):
         'domain': 'presence(2x2) x variants/bools x weak orderings of ordered scalars (Duration, i32), per policy' + (
             '; plus all pairs of RxO policies' if tier == 'thorough' else ''),
     })
+
+    # ------------------------------------------------------------ R10.5 both sides decide on the same QoS
+    rule_10_5(rep, fx)
+
+
+RXO_PIDS = ('PID_DURABILITY', 'PID_DEADLINE', 'PID_LATENCY_BUDGET', 'PID_LIVELINESS', 'PID_RELIABILITY', 'PID_OWNERSHIP', 'PID_DESTINATION_ORDER', 'PID_PRESENTATION')
+
+
+def rule_10_5(rep, fx):
+    """The remote side decides on the QoS as announced through SEDP, the local side on its own QosPolicies. The two verdicts agree only if every policy with a
+    request/offered rule travels unchanged: it is written whenever the field is present (never depending on its value) and read back into the same field."""
+    from rdv import pltables
+    from rules.C15 import bodies_named
+    rep.rule('R10.5', 'same verdict on both sides: each of the eight request/offered policies is announced by QosPolicies::to_parameter_list whenever it is present (emission never depends '
+                      'on the value, e.g. "infinite" or "default") and read back by from_parameter_list with the same wire type')
+    ser = bodies_named(fx, 'dds::qos::QosPolicies', ('to_parameter_list',))
+    des = bodies_named(fx, 'dds::qos::QosPolicies', ('from_parameter_list',))
+    if not ser or not des:
+        raise CheckBroken('QosPolicies::to_parameter_list / from_parameter_list not found')
+    rep.analysed(ser[0], des[0])
+    S = pltables.emissions(fx, ser[0])
+    D = pltables.consumptions(fx, des[0])
+    for pid in RXO_PIDS:
+        es = [e for e in S if e['pid'] == pid]
+        ds = [d for d in D if d['pid'] == pid]
+        ok = bool(es) and bool(ds) and all(not e['value_conds'] for e in es) and all(e['ty'] == ds[0]['ty'] for e in es)
+        why = 'not written' if not es else 'not read' if not ds else '; '.join(sum((e['value_conds'] for e in es), [])) or 'written as %s, read as %s' % (es[0]['ty'], ds[0]['ty'])
+        rep.check(ok, 'R10.5', 'QosPolicies/%s' % pid, 'announced on presence, read back as %s' % (ds[0]['ty'] if ds else '?'),
+                  '%s does not travel unchanged through the SEDP announcement (%s): the remote side evaluates the request/offered rule on a different value than the local side, '
+                  'the two verdicts differ and an incompatible pair is matched on one side' % (pid, why), (es[0]['where'] if es else ser[0].where()))
